@@ -29,7 +29,7 @@ pub fn gen(seed: u64, thorough: bool) -> Plan {
         // pending ops must exist between the previous commit and the build, unless first build
         p.stage_committed = r.chance(1, 2);
         p.cfg.pool = *r.pick(&[1usize, 1, 2, 4]);
-        p.cfg.map_size = 64 << 20;
+        p.cfg.map_size = 256 << 20;
         p.seed = seed;
         p.params.insert("quick".into(), !thorough as u64);
         // keep the builds small enough to enumerate every poll
